@@ -508,6 +508,112 @@ fn scenarios(report: &mut Report) -> u64 {
     SCENARIOS.len() as u64
 }
 
+/// Cells created from values that reach the `mut` through a parameter or a capture: whatever
+/// the route (function body, closure made at run time, closure returned to the host, typed
+/// creation, cell inside an array), the cell's run-time type is the static type `mut T` -
+/// not a narrower one taken from the value that happened to be captured - and after an
+/// assignment of any other T it holds that value.
+fn closure_made_cells(report: &mut Report) -> u64 {
+    use crate::ty::normal;
+    // (type, is a union at top level, values)
+    let types: &[(&str, bool, &[&str])] = &[
+        ("int | float", true, &["1", "2.5"]),
+        ("int | string", true, &["1", "\"s\""]),
+        ("any", false, &["1", "\"s\"", "[1]", "()"]),
+        ("[int] | string", true, &["[1]", "\"s\"", "[]"]),
+        ("[int | float]", false, &["[1]", "[2.5]", "[]"]),
+        ("(int | float, int)", false, &["(1, 1)", "(2.5, 2)"]),
+        ("int", false, &["1", "2"]),
+    ];
+    let forms: &[(&str, &str, bool)] = &[
+        ("function body", "f := (x: T, w: T) -> any { c := mut x; c = w; return c }", false),
+        ("closure called inside", "f := (x: T, w: T) -> any { g := () -> any { c := mut x; c = w; return c }; return g() }", false),
+        ("closure returned", "f := (x: T) -> (T) -> any { return (w: T) -> any { c := mut x; c = w; return c } }", true),
+        ("typed creation in a closure", "f := (x: T) -> (T) -> any { return (w: T) -> any { c := mut T x; c = w; return c } }", true),
+        ("cell in an array in a closure", "f := (x: T) -> (T) -> any { return (w: T) -> any { cs := [mut x]; cs[0] = w; return cs[0] } }", true),
+        ("nested closure", "f := (x: T) -> (T) -> any { return (w: T) -> any { h := () -> any { c := mut x; c = w; return c }; return h() } }", true),
+    ];
+    let interp = Interpreter::with_stdlib();
+    let mut n = 0u64;
+    for (t, is_union, vals) in types {
+        let paren = if *is_union { format!("({t})") } else { t.to_string() };
+        let want_ty = normal(&Ty::from_impl(&format!("mut {paren}").parse::<Type>().expect("C13 cell type parses")));
+        for (fname, ftext, curried) in forms {
+            let text = ftext.replace("T", t);
+            let f = match guard(|| Code::parse(&interp, &text).map(|c| c.exec())) {
+                Ok(Ok(Ok(Variable::Function(f)))) => f,
+                other => {
+                    report.violation(Violation {
+                        sig: format!("C13|cell-made-from-captured-value|program-fails|{fname}|T={}", t.replace('|', "/")),
+                        detail: json!({"kind": "program", "stdlib": true, "text": text, "observed": format!("{:?}", other.map(|r| r.map(|x| x.map(|v| canon(&v)))))}),
+                    });
+                    continue;
+                }
+            };
+            for v in vals.iter() {
+                for w in vals.iter() {
+                    n += 1;
+                    let mk = |src: &str| Code::parse(&interp, src).unwrap().exec().unwrap();
+                    let run = || -> Result<Variable, String> {
+                        let call = |f: &Arc<simplesl::function::Function>, args: Vec<Variable>| match guard(|| f.clone().create_call(args).map(|c| c.exec())) {
+                            Ok(Ok(Ok(r))) => Ok(r),
+                            other => Err(format!("{:?}", other.map(|r| r.map(|x| x.map(|v| canon(&v)))))),
+                        };
+                        if *curried {
+                            match call(&f, vec![mk(v)])? {
+                                Variable::Function(g) => call(&g, vec![mk(w)]),
+                                other => Err(format!("not a function: {}", canon(&other))),
+                            }
+                        } else {
+                            call(&f, vec![mk(v), mk(w)])
+                        }
+                    };
+                    let (ok, observed) = match run() {
+                        Ok(Variable::Mut(cell)) => {
+                            let tag = normal(&Ty::mutc(Ty::from_impl(&cell.var_type)));
+                            let content = cell.variable.read().map(|g| canon(&g)).unwrap_or_else(|_| "<poisoned>".into());
+                            let want_content = canon(&mk(w));
+                            (tag == want_ty && content == want_content, format!("cell of type {} holding {content}", tag.print()))
+                        }
+                        Ok(other) => (false, format!("not a cell: {}", canon(&other))),
+                        Err(e) => (false, e),
+                    };
+                    if !ok {
+                        report.violation(Violation {
+                            sig: format!("C13|cell-made-from-captured-value|{fname}|T={}|first={v}|then={w}", t.replace('|', "/")),
+                            detail: json!({"kind": "host_call", "program": text, "args": if *curried { vec![format!("f({v})({w})")] } else { vec![v.to_string(), w.to_string()] }, "expected": format!("cell of type {} holding {}", want_ty.print(), canon(&mk(w))), "observed": observed}),
+                        });
+                    }
+                }
+            }
+        }
+    }
+    n
+}
+
+/// runs the loom harnesses that share a cell (`loomcheck C13 <tier>`) and turns their verdicts into C13 violations
+fn concurrent_updates(tier: &str, report: &mut Report) -> (u64, u64) {
+    let bin = crate::report::verif_root().join("loomcheck/target/release/loomcheck");
+    if !bin.exists() {
+        eprintln!("MACHINERY ERROR: {} is missing (run ./setup.sh or ./check C13)", bin.display());
+        std::process::exit(2);
+    }
+    let out = std::process::Command::new(&bin).arg("C13").arg(tier).output().expect("start loomcheck");
+    let stdout = String::from_utf8_lossy(&out.stdout);
+    let Some(line) = stdout.lines().find_map(|l| l.strip_prefix("SUMMARY ")) else {
+        eprintln!("MACHINERY ERROR: loomcheck C13 gave no summary (exit {:?}): {}", out.status.code(), String::from_utf8_lossy(&out.stderr).lines().take(5).collect::<Vec<_>>().join(" / "));
+        std::process::exit(2);
+    };
+    let v: serde_json::Value = serde_json::from_str(line).expect("loomcheck summary is JSON");
+    for viol in v["violations"].as_array().cloned().unwrap_or_default() {
+        report.violation(Violation {
+            sig: format!("C13|concurrent-update-not-atomic|{}", viol["name"].as_str().unwrap_or("?")),
+            detail: json!({"kind": "loom", "case_index": viol["case_index"], "name": viol["name"], "cells": viol["cells"], "setup": viol["setup"], "threads": viol["threads"], "observed": viol["observed"], "replay": "./check C16 --replay <this file> re-runs the harness"}),
+        });
+    }
+    (v["harnesses"].as_u64().unwrap_or(0), v["schedules"].as_u64().unwrap_or(0))
+}
+
 pub fn run(tier: &str) -> i32 {
     let thorough = tier == "thorough";
     let mut report = Report::new("C13", tier);
@@ -537,6 +643,11 @@ pub fn run(tier: &str) -> i32 {
     // second model: the aliasing graph changes (re-binding, fresh copies, tuples, destructuring, capture)
     let (dynamic, dyn_violations) = crate::props::c13dyn::explore(if thorough { 6 } else { 4 });
     report.violations(dyn_violations);
+    // "computed from the content at the moment of the update": with several threads updating one
+    // cell this is atomicity of the update; decided by the loom harnesses over shared cells
+    // (the C16 machinery, run here for its shared-cell cases) - exhaustive over their schedules
+    let concurrent = concurrent_updates(tier, &mut report);
+    let n_closure_cells = core::on_big_stack(|| closure_made_cells(&mut report));
     let transitions = shared.transitions.load(Ordering::Relaxed);
     let outcomes = shared.outcomes.lock().unwrap().len();
     let coverage = json!({
@@ -550,6 +661,8 @@ pub fn run(tier: &str) -> i32 {
         "ill_typed_actions_rejected_as_expected": shared.rejected_as_expected.load(Ordering::Relaxed),
         "failing_updates_with_expected_error_and_unchanged_cell": shared.errors_as_expected.load(Ordering::Relaxed),
         "aliasing_scenarios": n_scenarios,
+        "cells_made_from_parameters_and_captures": n_closure_cells,
+        "concurrent_update_harnesses_loom": {"harnesses": concurrent.0, "schedules": concurrent.1},
         "dynamic_aliasing_model": {"states": dynamic.states, "transitions": dynamic.transitions, "depth_bound": dynamic.depth, "actions": dynamic.actions, "distinct_observations": dynamic.distinct_observations, "max_live_cells": dynamic.max_cells,
             "rule": "hand-written BFS; a state is (cell contents, cell held by x, y, p.0, p.1, the closure h), canonicalised by renumbering reachable cells; every transition runs the whole history on the real interpreter and compares step result, contents through every path and identity relations (== on cells)"},
         "static_admissibility_cases": static_n,
